@@ -13,3 +13,12 @@ Definition col (m : list (list A)) (c : nat) : list A := map (fun row => nthA Op
 Definition array_call (fdel hn steps : list (list A)) (rule rr : list A) (ncols : nat) : list (A * A * A * nat) :=
   map (fun c => pipeline Op tfact thr c_1em8 c_1p5 c_half (col fdel c) (col hn c) (col steps c) rule rr) (seq 0 ncols).
 End ArrayCall.
+
+(* _Limit._extrapolate on matrices whose rows are steps and whose columns are the (ravelled) result entries:
+   Richardson, dea3, selection, column by column (used as is by Hessian, whose rule application is the identity) *)
+Section ArrayExtrapolate.
+Context {A : Type} (Op : Ops A).
+Variables (tfact thr c_1em8 c_1p5 c_half : A).
+Definition array_extrapolate (der hs : list (list A)) (rr : list A) (ncols : nat) : list (A * A * A * nat) :=
+  map (fun c => extrapolate Op tfact thr c_1em8 c_1p5 c_half (col Op der c) (col Op hs c) rr) (seq 0 ncols).
+End ArrayExtrapolate.
